@@ -144,7 +144,9 @@ pub fn intag_tokens() -> Vec<String> {
 
 /// Text pieces that only make sense outside tags.
 pub fn text_tokens() -> Vec<String> {
-    ["x", " ", "\n", "é", "😀", "\\"].iter().map(|s| s.to_string()).collect()
+    // NBSP and EM SPACE: white space to Unicode but not to the lexer, two and three bytes long
+    // (seeded change C06-15: the in-tag white-space skip counted characters, then split at bytes)
+    ["x", " ", "\n", "é", "😀", "\\", "\u{a0}", "\u{2003}"].iter().map(|s| s.to_string()).collect()
 }
 
 /// Full token alphabet under a delimiter set: 12 delimiter spellings + in-tag tokens + text pieces.
